@@ -1,0 +1,49 @@
+//go:build verif && (verif_all || verif_c20)
+// +build verif
+// +build verif_all verif_c20
+
+package gocql
+
+// Verification hooks (build tag `verif`) for C20, second file (AuthProvider / per-host authenticator
+// resolution, end-to-end dial through the session's own connection config). Add-only.
+
+import (
+	"context"
+	"net"
+)
+
+// VerifSess is a session that has only its configuration: Session.cfg is a copy of the cluster config and
+// Session.connCfg is connConfig(&s.cfg) (TLS set-up, dialer, Authenticator and AuthProvider copied), as in NewSession.
+type VerifSess struct{ s *Session }
+
+// VerifNewSess builds the configuration part of a session; the error is connConfig's (bad TLS files).
+func VerifNewSess(cluster *ClusterConfig) (*VerifSess, error) {
+	s := &Session{cfg: *cluster, logger: cluster.logger()}
+	connCfg, err := connConfig(&s.cfg)
+	if err != nil {
+		return nil, err
+	}
+	s.connCfg = connCfg
+	return &VerifSess{s}, nil
+}
+
+// Connect opens ONE connection to a host (hostname may be empty, connect address ip, port) exactly the way the
+// session does for its pool and control connections (Session.connect) and closes it again; the error is what the
+// pool would see. Several calls share the session's connection config, as the connections of a real session do.
+func (v *VerifSess) Connect(hostname string, ip net.IP, port int) error {
+	host := &HostInfo{hostname: hostname, connectAddress: ip, port: port}
+	c, err := v.s.connect(context.Background(), host, connErrorHandlerFn(func(*Conn, error, bool) {}))
+	if c != nil {
+		c.Close()
+	}
+	return err
+}
+
+// VerifConnect = VerifNewSess + one Connect.
+func VerifConnect(cluster *ClusterConfig, hostname string, ip net.IP, port int) error {
+	v, err := VerifNewSess(cluster)
+	if err != nil {
+		return err
+	}
+	return v.Connect(hostname, ip, port)
+}
